@@ -9,12 +9,13 @@ package ruleset
 import (
 	"errors"
 	"regexp"
+	"slices"
 	"strings"
 )
 
 type RegexpMatcher struct {
-	include *regexp.Regexp
-	exclude *regexp.Regexp
+	include []*regexp.Regexp
+	exclude []*regexp.Regexp
 	inverse bool
 }
 
@@ -26,23 +27,12 @@ func NewRegexpMatcher(include, exclude []*regexp.Regexp) (*RegexpMatcher, error)
 		return nil, ErrNoIncludeRules
 	}
 
-	build := func(rules []*regexp.Regexp) *regexp.Regexp {
-		var regex strings.Builder
-		for i := range rules {
-			if i > 0 {
-				regex.WriteString("|")
-			}
-			regex.WriteString(rules[i].String())
-		}
-		if s := regex.String(); s != "" {
-			return regexp.MustCompile(s)
-		}
-		return nil
-	}
-
+	// Rules are evaluated one by one. Joining their sources with "|" into
+	// a single expression would let an inline flag such as (?i), or an
+	// unterminated \Q, of one rule change how the following rules are read.
 	return &RegexpMatcher{
-		include: build(include),
-		exclude: build(exclude),
+		include: slices.Clone(include),
+		exclude: slices.Clone(exclude),
 	}, nil
 }
 
@@ -66,10 +56,19 @@ func (r *RegexpMatcher) Match(s string) bool {
 }
 
 func (r *RegexpMatcher) match(s string) bool {
-	if r.exclude != nil && r.exclude.MatchString(s) {
+	if matchAny(r.exclude, s) {
 		return false
 	}
-	return r.include != nil && r.include.MatchString(s)
+	return matchAny(r.include, s)
+}
+
+func matchAny(rules []*regexp.Regexp, s string) bool {
+	for _, re := range rules {
+		if re.MatchString(s) {
+			return true
+		}
+	}
+	return false
 }
 
 type RegexpListItem struct {
